@@ -12,6 +12,7 @@ import (
 
 	"filippo.io/edwards25519"
 	"filippo.io/edwards25519/field"
+	"verif/harness/limbmodel"
 	"verif/harness/ref"
 )
 
@@ -144,15 +145,9 @@ func ElemValue(e *field.Element) *big.Int {
 // confine injected limb vectors; set by the limb model (C09) or DefaultBox.
 type Box = Limbs
 
-// DefaultBox is the fixpoint computed by the limb model for the pinned tree
-// (recomputed and compared at run time by the C09 check).
-var DefaultBox = Box{
-	(1 << 51) + 81604534252,
-	(1 << 51) + (1 << 32) + 155646,
-	(1 << 51) + (1 << 32) + 8190,
-	(1 << 51) + (1 << 32) + 8190,
-	(1 << 51) + (1 << 32) + 8190,
-}
+// DefaultBox is the closed box: the least fixpoint of the limb model
+// (limb0 <= 2^51+81604534252, limb1 <= 2^51+2^32+155646, others <= 2^51+2^32+8190).
+var DefaultBox = func() Box { b, _, _, _ := limbmodel.Fixpoint(); return b.Uint64() }()
 
 func InBox(l Limbs, b Box) bool {
 	for i := 0; i < 5; i++ {
